@@ -1,5 +1,6 @@
 /* slist world: C13 (singly-linked list equals a reference sequence; tail is the true last) and the slist part of C15 */
 #include "cstl/slist.h"
+#define W_AUDIT_NEW_STATES_ONLY 1   /* the key holds the implementation's raw state AND the reference model, so the audit verdict is a function of the key */
 #include "../engine/mc.h"
 #include <sanitizer/asan_interface.h>
 
@@ -281,8 +282,9 @@ static void canon_one(int l)
 }
 static void w_canon(void)
 {
-    int l;
+    int l, i;
     for (l = 0; l < NL; l++) canon_one(l);
+    KB_C('m'); for (i = 0; i < N; i++) KB_I(m_where[i]);
 }
 /* C15: after clear the container must be field-for-field what cstl_*_init produces */
 static void check_fresh(int l)
